@@ -86,7 +86,9 @@ def threshold_proportional(W, p, copy=True):
     n = len(W)						# number of nodes
     np.fill_diagonal(W, 0)			# clear diagonal
 
-    if np.allclose(W, W.T):				# if symmetric matrix
+    # symmetric up to round-off; the absolute tolerance shrinks with the weights
+    # so that matrices of very small weights are not all taken to be symmetric
+    if np.allclose(W, W.T, atol=1e-8 * min(1, np.max(np.abs(W), initial=0))):
         W[np.tril_indices(n)] = 0		# ensure symmetry is preserved
         ud = 2						# halve number of removed links
     else:
